@@ -567,7 +567,11 @@ def rule_radix_digit_clamp(col, facts):
     """GRD-copy (generic-radix float writer): the digit generator fills a 2200-byte scratch buffer; the writers
     copy `digit_count <= end - start` of those digits into the caller's slice *before* trimming trailing
     zeros.  `end` must therefore be clamped to `start + K + 1` with a constant K that leaves room for the
-    non-digit characters inside the documented bound (K + MAX_NONDIGIT_LENGTH <= BUFFER_SIZE)."""
+    non-digit characters inside the documented bound (K + MAX_NONDIGIT_LENGTH <= BUFFER_SIZE); since F49 the
+    positional writer adds the number of leading zeros of a value below one (they are bounded by the negative
+    exponent break, which buffer_size_const adds to the bound; the significant digits behind them by the
+    generator's precision, at most 64 by the same function's own assumption - that last part is not decided
+    here)."""
     if "radix" not in facts.config:
         return
     R = "GRD-copy"
@@ -596,8 +600,19 @@ def rule_radix_digit_clamp(col, facts):
                                 walk(y)
                     walk(arm)
                     mentions_start = show(start) in show(arm) or start == arm
+                    # other addends: only the count of *leading zeros* of the digit string (value below one; they
+                    # are not significant digits and are paid for by the exponent-break term of buffer_size_const,
+                    # which TBL-size checks) - anything else makes the window unbounded again
+                    def addends(x):
+                        x = strip_casts(x)
+                        if x[0] == "bin" and x[1] == "Add":
+                            return addends(x[2]) + addends(x[3])
+                        return [x]
+                    others = [x for x in addends(arm) if not (x == start or x[0] in ("k", "kc") or (x[0] == "call" and last_seg(x[1]) == "ltrim_char_count"))]
+                    if others:
+                        continue
                     if ks and mentions_start:
-                        k = sum(ks) + sum(lits)
+                        k = sum(x[2] for x in addends(arm) if x[0] == "kc" and isinstance(x[2], int)) + sum(x[1] for x in addends(arm) if x[0] == "k" and isinstance(x[1], int))
                         ok = k + 2 <= buf - 16          # digits + point + first digit, leaving room for sign / exponent
             col.check(R, "radix::%s:end-clamped" % name, ok,
                       "the number of generated digits copied into the caller's buffer is `%s`, not clamped to start + a constant below BUFFER_SIZE (%s): hundreds of integer digits are copied before trailing zeros are trimmed and a buffer of the documented size panics" % (show(e), buf), f.loc(f.blocks[bb]["ts"]))
